@@ -92,7 +92,9 @@ def run(desc):
         r = s.call(o, task, mode=mode, workers=workers, entropy_label="invalid")
         stats.update({"steps": r.steps, "nevents": s.sim.nevents, "digest": s.sim.digest(), "obj_calls": r.obj_calls,
                       "deadlock": r.deadlock})
-        if r.deadlock or r.step_limit:
+        if s.sim.wall_limit_hit and not r.deadlock:
+            pass            # cut off by the harness's wall budget (machine under load): no verdict
+        elif r.deadlock or r.step_limit:
             add("hang", f"{desc['optimizer']}: the invalid call deadlocked / did not return (mode {mode})")
         elif r.exc is None:
             add("accepted_invalid", f"{desc['optimizer']}: optimize() returned a result for an invalid call "
